@@ -47,15 +47,13 @@ impl Prop for C11 {
     let (_, end) = positions(&text);
     let mut nt = false;
     let mut k1 = false;
-    for columns in [true, false] {
-      let map = guard(|| build(spec).map(&opts(columns, false)))
-        .map_err(|p| format!("columns={columns}: map(): {p}"))?;
-      if let Some(m) = &map {
+    let mut check_map = |columns: bool, map: &Option<rspack_sources::SourceMap>, how: &str| -> Result<(), String> {
+      if let Some(m) = map {
         let ms = m.mappings();
         if let Some(c) = ms.bytes().find(|c| vlq::b64_value(*c).is_none() && *c != b',' && *c != b';') {
-          return Err(format!("columns={columns}: mappings {ms:?} contain the character {:?}", c as char));
+          return Err(format!("columns={columns}{how}: mappings {ms:?} contain the character {:?}", c as char));
         }
-        let segs = vlq::decode(ms).map_err(|e| format!("columns={columns}: mappings {ms:?} do not decode: {e:?}"))?;
+        let segs = vlq::decode(ms).map_err(|e| format!("columns={columns}{how}: mappings {ms:?} do not decode: {e:?}"))?;
         let mut last: Option<(u32, u32)> = None;
         let mut srcs = std::collections::BTreeSet::new();
         for s in &segs {
@@ -63,7 +61,7 @@ impl Prop for C11 {
           let passthrough = crate::props::c03::passthrough_sms(spec) && !crate::known::strict();
           if last.is_some_and(|l| p <= l) {
             return Err(format!(
-              "columns={columns}: segment {}:{} does not come strictly after {:?}; mappings={ms:?}",
+              "columns={columns}{how}: segment {}:{} does not come strictly after {:?}; mappings={ms:?}",
               p.0, p.1, last.unwrap()
             ));
           }
@@ -72,7 +70,7 @@ impl Prop for C11 {
               k1 = true;
             } else {
               return Err(format!(
-                "columns={columns}: segment {}:{} is not before the end {}:{} of {text:?}; mappings={ms:?}",
+                "columns={columns}{how}: segment {}:{} is not before the end {}:{} of {text:?}; mappings={ms:?}",
                 p.0, p.1, end.0, end.1
               ));
             }
@@ -80,33 +78,48 @@ impl Prop for C11 {
           if let Some(o) = &s.orig {
             srcs.insert(o.src);
             if o.src as usize >= m.sources().len() {
-              return Err(format!(
-                "columns={columns}: source index {} outside sources {:?}; mappings={ms:?}",
-                o.src,
-                m.sources()
-              ));
+              return Err(format!("columns={columns}{how}: source index {} outside sources {:?}; mappings={ms:?}", o.src, m.sources()));
             }
             if o.name.is_some_and(|n| n as usize >= m.names().len()) {
-              return Err(format!(
-                "columns={columns}: name index {:?} outside names {:?}; mappings={ms:?}",
-                o.name,
-                m.names()
-              ));
+              return Err(format!("columns={columns}{how}: name index {:?} outside names {:?}; mappings={ms:?}", o.name, m.names()));
             }
           }
           last = Some(p);
         }
         nt |= segs.len() >= 3 && srcs.len() >= 2;
       }
+      Ok(())
+    };
+    let check_wf = |st: &crate::observe::Stream, columns: bool, final_source: bool, how: &str| -> Result<(), String> {
+      if let Some(e) = st.wf_errors.first() {
+        return Err(format!(
+          "columns={columns} final_source={final_source}{how}: {e}; announced sources={:?} names={:?}",
+          st.sources.iter().map(|s| (s.0, &s.1)).collect::<Vec<_>>(),
+          st.names
+        ));
+      }
+      Ok(())
+    };
+    for columns in [true, false] {
+      let map = guard(|| build(spec).map(&opts(columns, false))).map_err(|p| format!("columns={columns}: map(): {p}"))?;
+      check_map(columns, &map, "")?;
       for final_source in [false, true] {
-        let st = fresh_stream(spec, columns, final_source)
-          .map_err(|p| format!("columns={columns} final_source={final_source}: {p}"))?;
-        if let Some(e) = st.wf_errors.first() {
-          return Err(format!(
-            "columns={columns} final_source={final_source}: {e}; announced sources={:?} names={:?}",
-            st.sources.iter().map(|s| (s.0, &s.1)).collect::<Vec<_>>(),
-            st.names
-          ));
+        let st = fresh_stream(spec, columns, final_source).map_err(|p| format!("columns={columns} final_source={final_source}: {p}"))?;
+        check_wf(&st, columns, final_source, "")?;
+      }
+    }
+    // validity does not depend on which path produced an answer: a tree with a CachedSource is asked
+    // everything twice on ONE object as well (the second round is answered from the caches)
+    if spec.has_cached() {
+      let obj = build(spec);
+      for how in [" (one object, first round)", " (one object, second round)"] {
+        for columns in [true, false] {
+          for final_source in [false, true] {
+            let st = guard(|| crate::observe::stream(&*obj, &opts(columns, final_source))).map_err(|p| format!("columns={columns} final_source={final_source}{how}: {p}"))?;
+            check_wf(&st, columns, final_source, how)?;
+          }
+          let map = guard(|| obj.map(&opts(columns, false))).map_err(|p| format!("columns={columns}{how}: map(): {p}"))?;
+          check_map(columns, &map, how)?;
         }
       }
     }
